@@ -587,7 +587,7 @@ func ruleC14NestedWaits(c *Ctx) {
 							}
 						}
 					}
-					direction := ""
+					direction, waited := "", ""
 					waits, dones := false, false
 					allInstrs(clo, func(_ *ssa.BasicBlock, cin ssa.Instruction) {
 						var cc *ssa.CallCommon
@@ -604,14 +604,19 @@ func ruleC14NestedWaits(c *Ctx) {
 						// which group is waited for and which is signalled: the nested query's and the enclosing one's, not the reverse
 						if strings.HasSuffix(nm, "(*sync.WaitGroup).Wait") {
 							waits = true
-							if len(cc.Args) == 1 && !strings.Contains(gtb.Of(cc.Args[0]).String(), recv) {
-								direction = "the goroutine waits for " + gtb.Of(cc.Args[0]).String() + ", which is not the wait group of the nested query"
+							if len(cc.Args) == 1 {
+								// (decided only where the group can be named: inside a helper the queries are its parameters, and the test
+								// below -- the group that is signalled is not the nested query's -- is the one that still applies)
+								waited = gtb.Of(cc.Args[0]).String()
 							}
 						}
 						if strings.HasSuffix(nm, "(*sync.WaitGroup).Done") {
 							dones = true
 							if len(cc.Args) == 1 && strings.Contains(gtb.Of(cc.Args[0]).String(), recv) {
 								direction = "the goroutine signals the nested query's own wait group, not the enclosing query's"
+							}
+							if len(cc.Args) == 1 && waited != "" && gtb.Of(cc.Args[0]).String() == waited {
+								direction = "the goroutine waits for and signals one and the same wait group"
 							}
 						}
 					})
